@@ -380,6 +380,25 @@ TR_CARDS = {
 # ---------------------------------------------------------------------------
 
 CONTENTS = {'c': [], 'd': []}     # card contents of the last run_impl call
+SKIPPED = set()                   # helpers of /repo that were not found (evidence)
+
+
+def lattice_params_of(lattice_args):
+    '''The dictionary ParseMCNPCell expects for --lattice options
+    ("cell,i0:i1[,j0:j1[,k0:k1]]"): through main.parse_lattice when it exists,
+    otherwise built from the public Lattice.parse_ranges.'''
+    try:
+        from t4_geom_convert.main import parse_lattice
+    except ImportError:
+        SKIPPED.add('helper main.parse_lattice not present')
+        from t4_geom_convert.Kernel.Volume.Lattice import parse_ranges
+        out = {}
+        for opt in lattice_args:
+            cell, *ranges = opt.split(',')
+            out[int(cell)] = parse_ranges(ranges)
+        return out
+    return parse_lattice(list(lattice_args))
+
 
 
 def run_impl(text, geoms, lattice_args=()):
@@ -391,14 +410,13 @@ def run_impl(text, geoms, lattice_args=()):
     from t4_geom_convert.Kernel.Transformation.Transformation import \
         get_mcnp_transforms
     from t4_geom_convert.Kernel.Volume.Lattice import LatticeSpec
-    from t4_geom_convert.main import parse_lattice
     from MIP.geom.parsegeom import get_ast
     import contextlib
     import io
     rev = {}
     for geom in geoms:
         rev[repr(get_ast(geom))] = geom
-    lattice_params = parse_lattice(list(lattice_args))
+    lattice_params = lattice_params_of(lattice_args)
     with impl.mip_parser(text) as parser:
         CONTENTS['c'] = [c.content() for c in
                          parser.cards(blocks='c', skipcomments=True)]
@@ -469,9 +487,18 @@ def py_float(tok):
 
 
 def py_to_float(tok):
-    '''The implementation's own datacard.to_float (a primitive of the model,
-    like float()).'''
-    from MIP.mip.datacard import to_float
+    '''The implementation's number reader for data-card entries (a primitive of
+    the model, like float()): datacard.to_float when the helper exists, else the
+    same function observed through the public expand_data_card (1 * x = x).'''
+    try:
+        from MIP.mip.datacard import to_float
+    except ImportError:
+        SKIPPED.add('helper datacard.to_float not present')
+        from MIP.mip.datacard import expand_data_card
+        try:
+            return expand_data_card(['1', tok + 'm'])[0][1]
+        except (ValueError, IndexError):
+            return None
     try:
         return to_float(tok)
     except ValueError:
@@ -539,7 +566,6 @@ def card_split(name, toks):
 
 def c_pcase(deck, lattice_args, result, texts=True):
     '''One `pcase` term.'''
-    from t4_geom_convert.main import parse_lattice
     transforms = result[3]
     split = [card_split(name, toks) for name, toks in deck['imp_cards']]
     tables = c_tables(deck_tokens(deck)
@@ -548,7 +574,7 @@ def c_pcase(deck, lattice_args, result, texts=True):
                  for name, toks in split)
     cards = clist(c_card(c) for c in deck['cells'])
     lats = clist(cpair(cz(k), clist(cpair(cz(a), cz(b)) for a, b in v))
-                 for k, v in parse_lattice(list(lattice_args)).items())
+                 for k, v in lattice_params_of(lattice_args).items())
     if result[0] == 'ok':
         cells = clist(cpair(cz(k), c_ocell(c)) for k, c in result[1])
         out = f'(Ok ({cells}, {clist(cz(k) for k in result[2])}))'
